@@ -140,7 +140,8 @@ def generated(ctx):
 #          ['M', d]               new trial on the same events array instance edited in place to hold data set d
 #          ['S', s, how, events]  source change; how = 'mutate' | 'replace' | 'new' (manager / source object identity),
 #                                 events = 'new' | 'same' (instance handed to the re-initialised trial); default new/new
-#          ['E', ns, [x per source]] | ['G', ns]
+#          ['E', ns, [x per source]] | ['G', ns] second derivative of the first dataset's likelihood
+#          ['H', ns]              second derivative of the composite (multi-dataset) likelihood
 #   final: ['eval', ns, xs] | ['eval_grad2', ns, xs] | ['grad2raw', ns] | ['maximize']
 
 def _cf():
@@ -160,7 +161,8 @@ def points(spec):
     else:
         off = {'p': 1.02, 'p2': 0.97, 'q': 1.07, 'r': 1.56, 'r2': 0.31}
     pts = {k: b + v for k, v in off.items()}
-    pts['n'] = float(gv[11])
+    pts['n'] = float(gv[11])      # exactly on a grid point: upper boundary of the cell of p/p2, lower boundary of q's cell
+    pts['n2'] = float(gv[12])     # the next grid point: upper boundary of q's cell
     return pts
 
 
@@ -186,9 +188,20 @@ def apply_op(G, op):
         return cf.op_evaluate(G, op[1], op[2])
     elif op[0] == 'G':
         return cf.op_grad2(G, op[1])
+    elif op[0] == 'H':
+        return grad2_multi(G, op[1])
     else:
         raise ValueError(op)
     return 'U'
+
+
+def grad2_multi(G, ns):
+    """the composite likelihood's calculate_ns_grad2 (reads the dataset signal weight factors of the weights service and the
+    per-dataset cached ns-gradients); 'ERR' when it is refused"""
+    try:
+        return _cf().op_grad2_multi(G, ns)
+    except (RuntimeError, AttributeError):
+        return 'ERR'
 
 
 def model_ops(case, ops=None):
@@ -203,6 +216,8 @@ def model_ops(case, ops=None):
             out.append(['I', d])
         elif op[0] == 'S':
             out.append(['S', op[1]])
+        elif op[0] == 'H':
+            out.append(['G', op[1], 'multi'])
         else:
             out.append(op)
     return out
@@ -232,9 +247,11 @@ def run_history(spec, d0, s0, ops, final=None):
             elif final[0] == 'eval_grad2':
                 r = cf.op_evaluate(G, final[1], final[2])
                 fin = {'llh': r['llh'], 'grads': r['grads'], 'grad2': cf.op_grad2(G, final[1]),
-                       'grad2_multi': cf.op_grad2_multi(G, final[1])}
+                       'grad2_multi': grad2_multi(G, final[1])}
             elif final[0] == 'grad2raw':
                 fin = {'grad2': cf.op_grad2(G, final[1])}
+            elif final[0] == 'grad2multi_raw':
+                fin = {'grad2_multi': grad2_multi(G, final[1])}
             elif final[0] == 'maximize':
                 fin = cf.op_maximize(G)
             else:
@@ -286,7 +303,7 @@ def o_fresh_vs_used(ctx, case, used=_NOT_GIVEN):
         (_, used) = run_history(spec, case['d0'], case['s0'], case['ops'], case['final'])
     (d, s) = last_state(case)
     ref_ops = []
-    if case['final'][0] == 'grad2raw':
+    if case['final'][0] in ('grad2raw', 'grad2multi_raw'):
         # the second derivative alone is *defined* relative to the last evaluation of the current trial
         for op in case['ops']:
             if op[0] in ('I', 'S', 'R', 'M'):
@@ -299,6 +316,53 @@ def o_fresh_vs_used(ctx, case, used=_NOT_GIVEN):
                 'objects holding the same trial data (data set %d, source set %d)%s; configuration %s' % (
                     case['final'], case['ops'], case['d0'], case['s0'], _short(used), _short(fresh), d, s,
                     ' after %s' % ref_ops if ref_ops else '', spec))
+    return None
+
+
+def o_repeat_final(ctx, case):
+    """every query is read-only: asking the final query twice in a row on the used objects gives the same answer twice
+    (evaluate, evaluate + second derivatives, second derivative alone — single and composite —, maximize + TS)"""
+    cf = _cf()
+    spec = case['spec']
+    try:
+        G = cf.build(spec, case['d0'], case['s0'])
+    except Exception as e:  # noqa
+        raise MachineryError('C06 fixture: cannot build the object graph %r: %s: %s' % (spec, type(e).__name__, e))
+    for op in case['ops']:
+        try:
+            apply_op(G, op)
+        except Exception:  # noqa
+            pass
+    final = case['final']
+
+    def ask():
+        try:
+            if final[0] == 'eval':
+                r = cf.op_evaluate(G, final[1], final[2])
+                return {k: r[k] for k in ('llh', 'grads', 'ratio', 'grad')}
+            if final[0] == 'eval_grad2':
+                r = cf.op_evaluate(G, final[1], final[2])
+                g1, h1 = cf.op_grad2(G, final[1]), grad2_multi(G, final[1])
+                return {'llh': r['llh'], 'grads': r['grads'], 'grad2': [g1, cf.op_grad2(G, final[1])],
+                        'grad2_multi': [h1, grad2_multi(G, final[1])]}
+            if final[0] == 'grad2raw':
+                return {'grad2': cf.op_grad2(G, final[1])}
+            if final[0] == 'grad2multi_raw':
+                return {'grad2_multi': grad2_multi(G, final[1])}
+            return cf.op_maximize(G)
+        except Exception as e:  # noqa
+            return 'EXC:%s: %s' % (type(e).__name__, str(e)[:120])
+    a = ask()
+    if isinstance(a, dict) and final[0] == 'eval_grad2':
+        for k in ('grad2', 'grad2_multi'):
+            if not _same(a[k][0], a[k][1]):
+                return ('after evaluate(%r, %r) the %s second derivative computed twice in a row is %r and then %r; history %s, '
+                        'configuration %s' % (final[1], final[2], 'composite' if k == 'grad2_multi' else "first dataset's",
+                                              a[k][0], a[k][1], case['ops'], spec))
+    b = ask()
+    if not _same(a, b):
+        return ('%s asked twice in a row after the history %s (first trial: data set %d, source set %d) gives %s and then %s; '
+                'configuration %s' % (final, case['ops'], case['d0'], case['s0'], _short(a), _short(b), spec))
     return None
 
 
@@ -372,10 +436,15 @@ def o_cache_snapshot(ctx, case):
     const0 = cf.const_snapshot(G)
     for i, op in enumerate(case['ops']):
         stored = None if G.stub is None or op[0] != 'E' else cf._b(G.stub._stored)
+        svc = cf.service_snapshot(G) if op[0] in ('G', 'H') else None
         try:
             apply_op(G, op)
         except Exception:  # noqa  (a raising operation is part of the history)
             continue
+        if svc is not None and svc != cf.service_snapshot(G):
+            return ('operation %d %s of the history %s changed what the weight services hand out %s (a read-only query wrote '
+                    'into an array it was handed); configuration %s' % (i, op, case['ops'],
+                                                                       _diff_keys(svc, cf.service_snapshot(G)), spec))
         if stored is not None and stored != cf._b(G.stub._stored):
             return ('operation %d %s of the history %s changed the array the parameter-free PDF ratio hands out '
                     '(a consumer wrote into its input); configuration %s' % (i, op, case['ops'], spec))
@@ -400,7 +469,9 @@ def o_cache_snapshot(ctx, case):
         return ('evaluate(%r, %r) twice in a row gives %s and then %s %s' % (ns, xs, _short(strip(r1)), _short(strip(r2)), where))
     if snap1 != snap2:
         return ('evaluating (%r, %r) a second time changed the cache(s) %s %s' % (ns, xs, _diff_keys(snap1, snap2), where))
-    # ---- (4) diagnostic
+    # ---- (4) diagnostic (thorough tier only: it costs one more object graph)
+    if not ctx.thorough:
+        return None
     (d, s) = last_state(case)
     try:
         F = cf.build(spec, d, s)
@@ -580,7 +651,7 @@ def _compare(ctx, case, impl, model_line, stats=None):
             cf = _cf()
             Gf = cf.build(case['spec'], int(md), int(ms))
             cf.op_evaluate(Gf, parse_flist(mns)[0], parse_flist(mx))
-            want = cf.op_grad2(Gf, op[1])
+            want = grad2_multi(Gf, op[1]) if len(op) > 2 else cf.op_grad2(Gf, op[1])
             if not (isinstance(r, float) and isinstance(want, float) and f2b(r) == f2b(want)):
                 return ('operation %d %s: second derivative %r, but the evaluation the model says it stems from '
                         '(data set %s, source set %s, ns=%r, x=%r) gives %r' % (i, op, r, md, ms, parse_flist(mns)[0],
@@ -715,7 +786,7 @@ def shrink_field(ctx, fcase):
 
 ORACLES = {'fresh_vs_used': o_fresh_vs_used, 'cache_onoff': o_cache_onoff, 'corr': o_corr,
            'field_fresh_vs_used': o_field_fresh_vs_used, 'field_corr': o_field_corr,
-           'cache_snapshot': o_cache_snapshot, 'trace_fresh': o_trace_fresh}
+           'cache_snapshot': o_cache_snapshot, 'trace_fresh': o_trace_fresh, 'repeat_final': o_repeat_final}
 
 
 # --------------------------------------------------------------------------------------------------
@@ -752,8 +823,12 @@ def classify(name, case, res):
     elif name == 'cache_snapshot':
         mode = ('input-written' if ('input tables' in res or 'hands out' in res) else
                 'repeated-evaluation' if ('twice in a row' in res or 'second time' in res) else 'cache-content')
+    elif name == 'repeat_final':
+        mode = 'repeated-query-' + case['final'][0]
     elif case['final'][0] == 'grad2raw':
         mode = 'stale-nsgrad'
+    elif case['final'][0] == 'grad2multi_raw':
+        mode = 'composite-second-derivative'
     elif any(k in kinds for k in 'ISRM'):
         mode = 'stale-after-new-trial'
     else:
@@ -793,15 +868,18 @@ def probe_cases(spec, i):
     sp = spec if spec.get('graph') == 'i3' else dict(spec, product=[None, 'first', 'second'][i % 3])
     sp = dict(sp, reuse_fp=(i % 2 == 1), dY=(i % 4 >= 2))
     bad = [bad_point(spec)] * K
+    node = [pts['n']] * K if not split else [pts['n']] + [pts['p2']] * (K - 1)
+    below = [pts['p2']] * K
+    above = [pts['q']] * K
     how = ['new', 'replace', 'mutate'][i % 3]
     how2 = ['replace', 'mutate', 'new'][i % 3]
     out = [dict(spec=sp, d0=0, s0=0, ops=[['E', 2.5, p], ['I', 1]], final=['eval', 2.5, p]),
            dict(spec=sp, d0=0, s0=0, ops=[['E', 2.5, p], ['S', 1, how, 'same']], final=['eval', 2.5, p])]
     if i % 2 == 1 or spec.get('graph') == 'i3':
         out.append(dict(spec=sp, d0=1, s0=1, ops=[['E', 0.7, p], ['S', 0, how2, 'new']], final=['eval_grad2', 0.7, p]))
-    if i % 2 == 0:
+    if i % 4 == 0:
         out.append(dict(spec=sp, d0=1, s0=0, ops=[['E', 2.5, p], ['I', 2]], final=['eval', 2.5, p]))
-    else:
+    elif i % 4 == 2:
         out.append(dict(spec=sp, d0=1, s0=0, ops=[['E', 2.5, p], ['M', 0]], final=['eval', 2.5, p]))
     # error path inside a history: a failing evaluate, then the second derivative / the earlier point again
     if i % 2 == 0:
@@ -813,6 +891,22 @@ def probe_cases(spec, i):
     if i % 3 == 0 or split:
         out.append(dict(spec=sp, d0=2, s0=1, ops=[['E', 2.5, p], ['E', 2.5, q]], final=['eval', 2.5, p]))
         out.append(dict(spec=sp, d0=2, s0=1, ops=[['E', 2.5, p]], final=['eval_grad2', 2.5, q]))
+    # boundary values: a parameter value exactly on a grid point, reached from the cell below / from the cell above
+    out.append(dict(spec=sp, d0=1, s0=0, ops=[['E', 2.5, below]], final=['eval', 0.7, node]))
+    if i % 2 == 0:
+        out.append(dict(spec=sp, d0=0, s0=1, ops=[['E', 0.7, above]], final=['eval_grad2', 2.5, node]))
+    # read-only queries repeated: the composite second derivative (two datasets) asked again without a new evaluate
+    if i % 2 == 1:
+        out.append(dict(spec=sp, d0=2, s0=0, ops=[['E', 2.5, q], ['H', 2.5]], final=['grad2multi_raw', 0.7]))
+    if spec.get('graph') == 'i3':
+        return out
+    # option interactions are spread over the probes: every probe draws its own (norm factor function, second dataset,
+    # detector-yield dependence, product position) from a generator seeded by (configuration, probe) alone
+    import random
+    for j, c in enumerate(out):
+        r = random.Random(1000 * i + j)
+        c['spec'] = dict(c['spec'], norm=r.random() < 0.5, J=2 if (r.random() < 0.5 or any(o[0] == 'H' for o in c['ops'])) else 1,
+                         dY=r.random() < 0.4, product=r.choice([None, 'first', 'second']))
     return out
 
 
@@ -870,10 +964,12 @@ def gen_case(ctx, spec, maxlen):
             ops.append(['M', rng.randrange(2)])
         elif r < 0.40:
             ops.append(['S', rng.randrange(2), rng.choice(['mutate', 'replace', 'new']), rng.choice(['new', 'same'])])
-        elif r < 0.90:
+        elif r < 0.86:
             ops.append(['E', rng.choice([2.5, 0.7]), xs()])
-        else:
+        elif r < 0.93:
             ops.append(['G', rng.choice([2.5, 0.7])])
+        else:
+            ops.append(['H', rng.choice([2.5, 0.7])])
     evs = [op for op in ops if op[0] == 'E']
     same_point = bool(evs) and rng.random() < 0.4      # the final query repeats the last evaluated point exactly
 
@@ -884,8 +980,10 @@ def gen_case(ctx, spec, maxlen):
         final = ['eval'] + fin_args()
     elif r < 0.75:
         final = ['eval_grad2'] + fin_args()
-    elif r < 0.87:
+    elif r < 0.83:
         final = ['grad2raw', 2.5]
+    elif r < 0.90:
+        final = ['grad2multi_raw', 2.5]
     else:
         final = ['maximize']
     if same_point and final[0] in ('eval', 'eval_grad2'):
@@ -893,6 +991,9 @@ def gen_case(ctx, spec, maxlen):
     if spec.get('graph') != 'i3':
         spec = dict(spec, product=rng.choice([None, None, 'first', 'second']))
     spec = dict(spec, reuse_fp=rng.random() < 0.5, dY=rng.random() < 0.4)
+    if spec.get('graph') != 'i3':
+        # option interactions: non-trivial normalisation factor function of the grid PDFs; a second dataset
+        spec = dict(spec, norm=rng.random() < 0.4, J=2 if rng.random() < 0.4 else 1)
     return dict(spec=spec, d0=rng.randrange(4), s0=rng.randrange(2), ops=ops, final=final)
 
 
@@ -934,7 +1035,7 @@ def run(ctx):
         ctx.note('C06: per-source parameter configurations skipped: get_values_mask_for_source_mask raises NameError (C02)')
     specs = all_specs(split_ok)
     maxlen = ctx.n(3, 5)
-    per_spec = ctx.n(1, 40)
+    per_spec = ctx.n(1, 30)
     cases = [(c, True) for c in witness_cases()]
     for i, spec in enumerate(specs):
         for c in probe_cases(spec, i):
@@ -989,8 +1090,10 @@ def run(ctx):
             ctx.count('op:' + op[0] + (':' + '/'.join(op[2:4]) if op[0] == 'S' and len(op) >= 4 else ''))
         ctx.count('final:' + c['final'][0])
     for ci, (case, is_w) in enumerate(cases + [(c, False) for c in i3_cases]):
-        for name in ('fresh_vs_used', 'cache_onoff', 'cache_snapshot', 'trace_fresh'):
-            if name == 'cache_onoff' and (case['spec'].get('graph') == 'i3' or not (is_w or ctx.rng.random() < 0.35)):
+        for name in ('fresh_vs_used', 'cache_onoff', 'cache_snapshot', 'trace_fresh', 'repeat_final'):
+            if name == 'repeat_final' and case['final'][0] == 'eval':
+                continue            # evaluate twice in a row is clause (3) of cache_snapshot
+            if name == 'cache_onoff' and (case['spec'].get('graph') == 'i3' or not (is_w or ctx.rng.random() < 0.3)):
                 continue
             if name == 'trace_fresh' and (case['spec'].get('graph') != 'i3' or not any(op[0] == 'E' for op in case['ops'])):
                 continue
